@@ -66,8 +66,42 @@ def corpus(rng, thorough: bool) -> List[Tuple[str, bytes]]:
             b = MARK + b[1:] if n > 1 else b
         C.append((f"rnd{i}", b))
     if thorough:
-        C += [("len1MiB", rb(1 << 20)), ("len69999", rb(69999)), ("len70001", rb(70001))]
+        C += [("len69999", rb(69999)), ("len70001", rb(70001)), ("len131072", rb(131072))]
     return C
+
+
+# ---------------------------------------------------------------------------- large payloads
+
+BIG_TAGS = ["blk-a", "blk-b"]
+
+
+def big_bytes(n: int, tag: str = "blk-a") -> bytes:
+    """n bytes of generated content: a 4099-byte pseudo-random block (odd length, so that no
+    power-of-two chunk boundary repeats the same content) repeated and cut."""
+    block = b"".join(hashlib.sha256(f"{tag}:{i}".encode()).digest() for i in range(129))[:4099]
+    return (block * (n // len(block) + 1))[:n]
+
+
+def large_sizes(thorough: bool) -> List[int]:
+    """Sizes around thresholds implementations like to use (buffer / mmap / chunk limits)."""
+    M = 1 << 20
+    sizes = [M - 1, M, M + 1, 3 * M + 17]
+    if thorough:
+        sizes += [2 * M, 4 * M, 8 * M + 1]
+    return sizes
+
+
+def large_histories(thorough: bool) -> List[List[Any]]:
+    """Oracle-only cases (no model: the payloads would dominate the wire): every large file is
+    packed once into one container, the container is reopened and everything read back;
+    thorough adds the 128/256/512 KiB boundaries, each through a short transport history."""
+    H = [[["pack", f"big/l{i}", big_bytes(n, BIG_TAGS[i % 2])] for i, n in enumerate(large_sizes(thorough))] + [["reopen"]]]
+    if thorough:
+        for k in (128, 256, 512):
+            for dlt in (-1, 0, 1):
+                b = big_bytes(k * 1024 + dlt, "blk-b")
+                H.append([["pack", "f", b], ["bnd"], ["copy", "f", "a/g"], ["move", "f", "b/c/h"], ["merge"], ["reopen"]])
+    return H
 
 
 # ---------------------------------------------------------------------------- histories
@@ -903,15 +937,25 @@ def _op_show(op):
 
 # ---------------------------------------------------------------------------- JSON-safe cases
 
+def _json_bytes(x: bytes):
+    if len(x) > 100000:
+        for tag in BIG_TAGS:
+            if x == big_bytes(len(x), tag):
+                return {"big": [len(x), tag]}
+    return {"hex": x.hex()}
+
+
 def case_to_json(case):
     driver, ops = case
-    return {"driver": driver, "ops": [[({"hex": x.hex()} if isinstance(x, bytes) else x) for x in op] for op in ops]}
+    return {"driver": driver, "ops": [[(_json_bytes(x) if isinstance(x, bytes) else x) for x in op] for op in ops]}
 
 
 def case_from_json(j):
     def un(x):
         if isinstance(x, dict) and "hex" in x:
             return bytes.fromhex(x["hex"])
+        if isinstance(x, dict) and "big" in x:
+            return big_bytes(*x["big"])
         return x
     return (j["driver"], [[un(x) for x in op] for op in j["ops"]])
 
@@ -996,6 +1040,8 @@ def run(ctx: vlib.Ctx):
     for i, h in enumerate(xh[:6] if ctx.quick else xh):   # quick: base container and patch; thorough: merged record too
         # plain HDF5 has no marker to guard; quick: one IH5 driver per history, alternating
         cases += [(drv, PRE + h) for drv in (("ih5", "mf") if not ctx.quick else (("ih5", "mf")[i % 2],))]
+    for h in large_histories(not ctx.quick):
+        cases += [(drv, h) for drv in DRIVERS]
     hist = [h for _, h in cases]
     import time as _t
     t0 = _t.time()
@@ -1060,7 +1106,7 @@ def run(ctx: vlib.Ctx):
     cov["exhaustive"] = False
     lens = sorted({len(b) for _, b in C})
     cov["input_distribution"] = {
-        "corpus": len(C), "lengths": lens[:12] + ["..."] + lens[-8:], "histories": len({repr(h) for h in hist}), "drivers": _hist(d for d, _ in cases),
+        "corpus": len(C), "lengths": lens[:12] + ["..."] + lens[-8:], "large_sizes_oracle_only": large_sizes(not ctx.quick), "histories": len({repr(h) for h in hist}), "drivers": _hist(d for d, _ in cases),
         "cases": len(cases), "ops_per_history": _hist(len(h) for h in hist),
         "op_kinds": _hist(o[0] for h in hist for o in h),
         "marker_attempts": sum(1 for h in hist for o in h if (o[0] == "pack" and o[2] == MARK) or (o[0] in ("set", "write") and o[3] == MARK)),
